@@ -1,4 +1,4 @@
-package main
+package core
 
 import (
 	"math/rand"
@@ -8,20 +8,20 @@ import (
 // Shared generators. Every random choice comes from the one *rand.Rand of the
 // run so a (seed, index) pair replays exactly.
 
-var textAtoms = []string{
+var TextAtoms = []string{
 	"alice", "bob", "host-1.example.com", "10.0.0.7", "::1", "2001:db8::1", "a b", "", "x",
 	`q"uote`, `back\slash`, "<html>&amp;", "tab\there", "nl\nline", "ünï©ødé", "日本語", "😀", " ", "K", "ſ",
 	"{", "}", "[]", ":", ",", "null", "true", "0", "-1", "SUCCESS", "=", "@", "a=b", "u@h",
 }
 
-func genText(r *rand.Rand) string {
+func GenText(r *rand.Rand) string {
 	switch r.Intn(10) {
 	case 0:
 		return ""
 	case 1, 2, 3, 4:
-		return textAtoms[r.Intn(len(textAtoms))]
+		return TextAtoms[r.Intn(len(TextAtoms))]
 	case 5, 6:
-		return textAtoms[r.Intn(len(textAtoms))] + textAtoms[r.Intn(len(textAtoms))]
+		return TextAtoms[r.Intn(len(TextAtoms))] + TextAtoms[r.Intn(len(TextAtoms))]
 	default:
 		n := r.Intn(12)
 		var b strings.Builder
@@ -41,21 +41,21 @@ func genText(r *rand.Rand) string {
 	}
 }
 
-func genTextNonEmpty(r *rand.Rand) string {
+func GenTextNonEmpty(r *rand.Rand) string {
 	for {
-		if s := genText(r); s != "" {
+		if s := GenText(r); s != "" {
 			return s
 		}
 	}
 }
 
-func genTextList(r *rand.Rand, max int) []string {
+func GenTextList(r *rand.Rand, max int) []string {
 	n := r.Intn(max + 1)
 	l := make([]string, n)
 	for i := range l {
-		l[i] = genText(r)
+		l[i] = GenText(r)
 	}
 	return l
 }
 
-func pick[T any](r *rand.Rand, xs ...T) T { return xs[r.Intn(len(xs))] }
+func Pick[T any](r *rand.Rand, xs ...T) T { return xs[r.Intn(len(xs))] }
